@@ -72,7 +72,8 @@ CLAIMED["C04"] = ("other", "Mixed: (proof) leaf translation: _from_pkg_specifier
                   "5 C04", "A-VER, A-PKG-PARSE, A-PKG-CONTAINS (bounded); C01/C05/C06 contracts; finding D3 (contains() goes through the ~= rendering)",
                   "contract-based deductive verification of the leaf translation (T-VER) + bounded comparison with packaging")
 CLAIMED["C07"] = ("other", "Mixed: (proof) MultiMarker.__str__ / MarkerUnion.__str__ produce a join whose operands parse at the right precedence (no unparenthesised or-join or <empty>/'' token inside an and-join) and mean the children, "
-                  "for all compounds in normal form; (bounded) str() of every parse/&/|/only/exclude result of the marker sweep is re-parsed by parse_marker and packaging.Marker and re-evaluated on the environment grid; "
+                  "for all compounds in normal form; an atom rendered by MarkerExpression.__str__ and read back (packaging's triple, then the real _build_markers) is the same atom, for the ten operators and both operand orders; "
+                  "(bounded) str() of every parse/&/|/only/exclude result of the marker sweep is re-parsed by parse_marker and packaging.Marker and re-evaluated on the environment grid; "
                   "<empty>/'' round trip and absence of <empty> inside larger markers checked there.", "5 C07", "A-PKG-PARSE (precedence); str() contract of children assumed recursively; atom renderings bounded; D14 finding",
                   "contract-based verification of the parenthesisation (document algebra, invariants, z3) + bounded round trip")
 CLAIMED["C10"] = ("other", "Mixed: (frame analysis, decided statically on every run) every memoised function found in the source reads, through its key parameters, only state that ==/hash compare, and the key objects it returns "
